@@ -16,6 +16,9 @@ func init() { scenarios["c10"] = scenC10 }
 
 // itemToken extracts the generator's token from a harvested item ("" for an error item).
 func itemToken(it pub.Tangible) (tok string, isErr bool) {
+	if it == nil || (reflect.ValueOf(it).Kind() == reflect.Pointer && reflect.ValueOf(it).IsNil()) {
+		return "<nil item>", false // a hole in the listing: never equal to a generated token
+	}
 	if _, ok := it.(*pub.Failure); ok {
 		return "", true
 	}
@@ -41,7 +44,20 @@ func scenC10(r *Run) {
 	t := r.W
 	f.QueryURLs = t.Chance(1, 4)
 	base := simEpoch.Add(-48 * time.Hour)
+	// twin paths: consecutive remote items live under the same path on two different hosts
+	twins := t.Chance(1, 4)
+	f.host("h2.example")
+	lastPath := 0
 	l := f.DrawLayout("h1.example", func(remote bool) CItem {
+		if twins {
+			if lastPath == 0 {
+				lastPath = f.next()
+				return f.noteItemAt("h1.example", lastPath, f.next(), base.Add(time.Duration(f.seq)*time.Minute), true)
+			}
+			pn := lastPath
+			lastPath = 0
+			return f.noteItemAt("h2.example", pn, f.next(), base.Add(time.Duration(f.seq)*time.Minute), true)
+		}
 		return f.noteItem("h1.example", base.Add(time.Duration(f.seq)*time.Minute), remote)
 	})
 	ref, finite := l.Reference(80)
